@@ -418,10 +418,19 @@ def gen_run(seed: int, tier: str, sub: str) -> dict:
         # and user rewrite rules), the copy and the source are evaluated again through the same and
         # through a fresh interpreter -- in every thread, same calls, so they also meet concurrently
         cfg['nthreads'] = nthreads = r.choice([1, 2, 2, 3])
+        if rot % 2:
+            # every other derive run is a stampede too: the derived copies are compiled for the first
+            # time by several threads at once, finely interleaved
+            cfg['nthreads'] = nthreads = max(2, nthreads)
+            cfg['mean_quantum'] = r.choice([1, 2, 3, 6])
+            cfg['starve'] = r.choice([0.3, 0.7, 1.0])
         dnames = sorted(n for n in m['DERIVABLE'] if n in m['SIG'])
         # (the two sub-batches start at different places, so that a short batch still covers every function)
         doff = (8 if sub == 'faults' else 0) + 3 * rot
         names = [dnames[(doff + q) % len(dnames)] for q in range(3)]
+        if rot % 2 and 'q_a16' in dnames:
+            # the twins that differ only in the context their derived copies keep
+            names = [n for n in names if n not in ('q_a16', 'q_b8')][:2] + ['q_a16', 'q_b8']
         picks = {name: (catalogue('main', name, m['SIG'][name])[rot % 4], r.choice(CTX_NAMES)) for name in names}
         threads = []
         for t in range(nthreads):
